@@ -283,13 +283,18 @@ Section RunPack.
       | IOpt e' => match v with VNone => (VNone, n) | _ => on_ir e' n end
       | ICopy =>
           match v with
-          | VSeq k _ xs => (VSeq k n xs, S n)
+          | VSeq k _ xs => match k with
+                           | KFrozenSet => (v, n)             (* frozenset.copy() returns the object itself *)
+                           | _ => (VSeq k n xs, S n) end
           | VMap k _ kvs => (VMap k n kvs, S n)
           | _ => (v, n) end
       | ISeqComp e' =>
           match v with
           | VSeq _ _ xs =>
               let (ys, n') := map_st (fun x => run_pack x call e') xs (S n) in
+              (VSeq KList n ys, n')
+          | VMap _ _ kvs =>        (* iterating a mapping yields its keys (only reached from a union's try chain) *)
+              let (ys, n') := map_st (fun kv => match kv with (k, _) => run_pack k call e' end) kvs (S n) in
               (VSeq KList n ys, n')
           | _ => (v, n) end
       | IMapComp ke ve =>
@@ -334,6 +339,19 @@ Definition union_member_ok (t: ty) : bool :=
   | TAtom | TNone | TLeaf _ | TPass | TSeq _ _ | TTupV _ | TTup _ | TMap _ _ _ | TDC _ => true
   | _ => false end.
 
+(* runtime classes a value at a position of the given origin may have (abstract origins admit the
+   usual concrete classes) *)
+Definition kind_ok (o: origin) (k: kind) : bool :=
+  match o, k with
+  | OList, KList | OSet, KSet | OFrozenSet, KFrozenSet | ODeque, KDeque | OTuple, KTuple => true
+  | OSequence, KList | OSequence, KTuple | OMutableSequence, KList => true
+  | OAbstractSet, KSet | OAbstractSet, KFrozenSet | OMutableSet, KSet => true
+  | ODict, KDict | ODict, KOrderedDict | OOrderedDict, KOrderedDict => true
+  | ODefaultDict, KDefaultDict | OCounter, KCounter => true
+  | OMapping, KDict | OMapping, KOrderedDict | OMutableMapping, KDict => true
+  | _, _ => false end.
+Definition is_tuple_kind (k: kind) : bool := match k with KTuple => true | _ => false end.
+
 Section Conf.
   Variable E : env.
   Fixpoint conforms (v: lv) {struct v} : ty -> bool :=
@@ -343,15 +361,18 @@ Section Conf.
       | TLeaf _ => match v with VLeaf _ => true | _ => false end
       | TAny | TPass => true
       | TOpt t' => match v with VNone => true | _ => on_ty t' end
-      | TSeq _ t' | TTupV t' =>
-          match v with VSeq _ _ xs => forallb (fun x => conforms x t') xs | _ => false end
+      | TSeq o t' =>
+          match v with VSeq k _ xs => kind_ok o k && forallb (fun x => conforms x t') xs | _ => false end
+      | TTupV t' =>
+          match v with VSeq k _ xs => is_tuple_kind k && forallb (fun x => conforms x t') xs | _ => false end
       | TTup ts =>
           match v with
-          | VSeq _ _ xs => zip_all conforms ts xs
+          | VSeq k _ xs => is_tuple_kind k && zip_all conforms ts xs
           | _ => false end
-      | TMap _ kt vt =>
+      | TMap o kt vt =>
           match v with
-          | VMap _ _ kvs => forallb (fun kv => match kv with (k, x) => conforms k kt && conforms x vt end) kvs
+          | VMap k _ kvs => kind_ok o k &&
+                            forallb (fun kv => match kv with (k, x) => conforms k kt && conforms x vt end) kvs
           | _ => false end
       | TDC c =>
           match v with
